@@ -187,24 +187,58 @@ class RecordingConsumer:
         self.writes.append(bytes(data))
 
 
+class QueueLikeConsumer(RecordingConsumer):
+    """a consumer that is also a container and is empty (false) when it is attached"""
+
+    def __len__(self):
+        return 0
+
+
 class Reader:
     """drives receive_record() on one Connection and records what it surfaces"""
 
-    def __init__(self, conn):
+    def __init__(self, conn, retry_from_errback=0):
         self.conn = conn
         self.got = []
         self.errors = []
         self.pending = 0
+        self.open = []            # [Deferred, given_up] of reads that have not been answered yet
+        self.given_up = 0
+        self.retry_from_errback = retry_from_errback      # reads re-issued from inside a failed read's errback
+        self.retried = 0
 
     def read(self):
         self.pending += 1
         d = self.conn.receive_record()
+        rec = [d, False]
+        self.open.append(rec)
 
         def ok(r):
             self.pending -= 1
+            if rec in self.open:
+                self.open.remove(rec)
             self.got.append(bytes(r))
 
         def bad(f):
             self.pending -= 1
+            if rec in self.open:
+                self.open.remove(rec)
+            if rec[1]:
+                return          # we gave up on this read ourselves (a timeout)
             self.errors.append(f.type.__name__)
+            if self.retry_from_errback > 0:
+                # `except ConnectionClosed:` in inlineCallbacks code runs right here, inside the errback
+                self.retry_from_errback -= 1
+                self.retried += 1
+                self.read()
         d.addCallbacks(ok, bad)
+
+    def give_up_one(self):
+        """Deferred.cancel() on the oldest unanswered read (what addTimeout() does)"""
+        for rec in self.open:
+            if not rec[1]:
+                rec[1] = True
+                self.given_up += 1
+                rec[0].cancel()
+                return True
+        return False
